@@ -1174,3 +1174,80 @@ Proof.
     exists pre, v. repeat split; auto. congruence.
   - intros (pre & v & _ & _ & _ & Hn & He & _). apply vetoes_true. congruence.
 Qed.
+
+(* ------------------------------------------------------------------ the pinned tree: counterexamples *)
+
+Definition plug (n : N) : plugin := mkPlugin n (fun _ => true) (fun _ => 0%Z).
+
+(* one SubRoute, one handler under it, then a global appended on the right *)
+Definition witness_stale : list op :=
+  [OSub 0 [plug 1]; ORoute KCall 1 7 0%Z [plug 2]; ORight [plug 3]].
+
+(* the probe of the design phase: three nested SubRoutes *)
+Definition witness_stale_deep : list op :=
+  [OSub 0 [plug 1]; OSub 1 [plug 2]; OSub 2 [plug 3]; ORoute KCall 3 7 0%Z [plug 4]; ORight [plug 5]].
+
+(* two sibling handlers under a router whose middle slice has spare capacity *)
+Definition witness_alias : list op :=
+  [OSub 0 [plug 1; plug 2]; OSub 1 [plug 3];
+   ORoute KCall 2 7 0%Z [plug 4]; ORoute KCall 2 8 0%Z [plug 5]; ORight [plug 6]].
+
+Lemma prefix_stale_refuted :
+  exists ops st, run_prefix false ops = Some st /\
+    handler_flats_prefix st <> spec_handler_flats (spec_of ops) /\
+    handler_flats_prefix st = [(7%N, [1%N; 2%N])] /\
+    spec_handler_flats (spec_of ops) = [(7%N, [1%N; 2%N; 3%N])].
+Proof. exists witness_stale. eexists. split; [vm_compute; reflexivity|]. vm_compute. repeat split; congruence. Qed.
+
+Lemma prefix_stale_deep_refuted :
+  exists st, run_prefix false witness_stale_deep = Some st /\
+    handler_flats_prefix st = [(7%N, [1%N; 2%N; 3%N; 4%N])] /\
+    spec_handler_flats (spec_of witness_stale_deep) = [(7%N, [1%N; 2%N; 3%N; 4%N; 5%N])].
+Proof. eexists. split; [vm_compute; reflexivity|]. vm_compute. split; reflexivity. Qed.
+
+(* with the tree refresh made recursive but the append left as pinned, the sibling's
+   plugin 5 has replaced plugin 4 in handler 7's list *)
+Lemma prefix_alias_refuted :
+  exists ops st, run_prefix true ops = Some st /\
+    handler_flats_prefix st <> spec_handler_flats (spec_of ops) /\
+    handler_flats_prefix st = [(7%N, [1%N; 2%N; 3%N; 5%N; 6%N]); (8%N, [1%N; 2%N; 3%N; 5%N; 6%N])] /\
+    spec_handler_flats (spec_of ops) = [(7%N, [1%N; 2%N; 3%N; 4%N; 6%N]); (8%N, [1%N; 2%N; 3%N; 5%N; 6%N])].
+Proof. exists witness_alias. eexists. split; [vm_compute; reflexivity|]. vm_compute. repeat split; congruence. Qed.
+
+(* the repaired model on the same histories *)
+Lemma repaired_on_witnesses :
+  (exists st, run witness_stale = Some st /\ handler_flats st = [(7%N, [1%N; 2%N; 3%N])]) /\
+  (exists st, run witness_stale_deep = Some st /\ handler_flats st = [(7%N, [1%N; 2%N; 3%N; 4%N; 5%N])]) /\
+  (exists st, run witness_alias = Some st /\
+     handler_flats st = [(7%N, [1%N; 2%N; 3%N; 4%N; 6%N]); (8%N, [1%N; 2%N; 3%N; 5%N; 6%N])]).
+Proof. repeat split; eexists; (split; [vm_compute; reflexivity | vm_compute; reflexivity]). Qed.
+
+Lemma effective_chain_lemma ops st :
+  run ops = Some st ->
+  let sp := spec_of ops in
+  global_flat st = sp_left sp ++ sp_right sp /\
+  Forall2 (fun h e => fst e = h_kind h /\ fst (snd e) = (h_id h, h_stat h) /\
+                      c_flat (get_cont st (h_cont h)) = sp_left sp ++ snd (snd e) ++ sp_right sp)
+          (s_handlers st) (sp_handlers sp) /\
+  option_map (view st) (s_unk_call st) = option_map (spec_wrap sp) (sp_unk_call sp) /\
+  option_map (view st) (s_unk_push st) = option_map (spec_wrap sp) (sp_unk_push sp) /\
+  handler_flats st = spec_handler_flats sp.
+Proof.
+  intros R. pose proof (run_inv _ _ R) as I. cbn zeta.
+  split; [apply (global_flat_spec _ _ I)|].
+  split; [apply (handlers_effective _ _ I)|].
+  split; [apply (orel_view _ _ _ _ I (inv_uc _ _ I))|].
+  split; [apply (orel_view _ _ _ _ I (inv_up _ _ I)) | apply (handler_flats_spec _ _ I)].
+Qed.
+
+Lemma exchange_refines_lemma opsc opss cli srv m :
+  run opsc = Some cli -> run opss = Some srv ->
+  exchange cli srv m = spec_exchange (spec_of opsc) (spec_of opss) m.
+Proof. intros Rc Rs. apply exchange_refines; apply run_inv; assumption. Qed.
+
+(* every chain a reachable state walks has pairwise distinct plugin names (refresh exits
+   the process otherwise) *)
+Lemma chains_distinct_lemma ops st :
+  run ops = Some st ->
+  forall j, j < length (s_conts st) -> NoDup (map p_name (c_flat (get_cont st j))).
+Proof. intros R. apply (inv_names _ _ (run_inv _ _ R)). Qed.
